@@ -45,6 +45,19 @@ class Lazy:
         return len(self._items)
 
 
+class Boom:
+    """Renders as '' but raises on its (at+1)-th call of a rendering."""
+
+    def __init__(self, at):
+        self.at, self.n = at, 0
+
+    def __call__(self):
+        self.n += 1
+        if self.at is not None and self.n == self.at + 1:
+            raise ValueError('body fails on displayed element %d' % self.at)
+        return ''
+
+
 VALUED = ['item', 'index', 'number', 'letter', 'Letter', 'roman', 'Roman',
           'length']
 BOOLS = ['even', 'odd', 'start', 'end']
@@ -114,6 +127,8 @@ def build_source(case):
         if elk.startswith('pair'):
             parts.append('⟦p_key=%s⟧' % var(sx, '%s_key' % p))
     parts.append('⟫')
+    if case.get('raise_at') is not None:
+        parts.append(var(sx, 'boom'))
     body = ''.join(parts)
     els = ''
     if opts.get('else'):
@@ -123,6 +138,17 @@ def build_source(case):
         var(sx, 'sequence-index', '∅') + var(sx, 'x', '∅')
     if p:
         after += var(sx, '%s_item' % p, '∅')
+    if case.get('raise_at') is not None:
+        # the loop runs inside let + try: a body that fails on some element
+        # is caught outside the loop; nothing may stay bound afterwards
+        lo, lc = open_close(sx, 'let', 'tmp=x')
+        to, tc = open_close(sx, 'try', '')
+        to = to.replace(' ', '')
+        exc = {'dtml': '<dtml-except>', 'ssi': '<!--#except-->',
+               'epfs': '%(except)['}[sx]
+        return lo + to + o + body + els + c + exc + 'CAUGHT' + tc + \
+            '|in-let:' + var(sx, 'sequence-item', '∅') + var(sx, 'tmp', '∅') \
+            + lc + after + var(sx, 'tmp', '∅')
     return o + body + els + c + after
 
 
@@ -242,11 +268,31 @@ def check(case):
     items = elements(case)
     seq = as_sequence(case['seqkind'], items)
     cls = String if case['syntax'] == 'epfs' else HTML
+    ra = case.get('raise_at')
+    boom = Boom(ra)
+    tmpl = cls(src)
+    before = list(items)
     try:
-        out = cls(src)(seq=seq, x='OUTERX')
+        out = tmpl(seq=seq, x='OUTERX', boom=boom)
     except Exception as e:
         return ('exception:%s' % type(e).__name__,
                 '%r on %r raised %r' % (src, items, e))
+    if case['seqkind'] in ('list', 'tuple', 'lazy'):
+        # the caller's sequence is only read: same elements, same order,
+        # and rendering it again shows the same thing
+        now = list(seq) if case['seqkind'] != 'lazy' else list(seq._items)
+        if len(now) != len(before) or any(a is not b for a, b in
+                                          zip(now, before)):
+            return ('sequence-modified', '%r changed the sequence from %r '
+                    'to %r' % (src, before, now))
+        boom.n = 0
+        try:
+            out2 = tmpl(seq=seq, x='OUTERX', boom=boom)
+        except Exception as e:
+            out2 = repr(e)
+        if out2 != out:
+            return ('second-render-differs', '%r on %r: first %r, second '
+                    '%r' % (src, items, out[:200], out2[:200]))
     try:
         empty_text, rows = expected(case)
     except model.Unspecified:
@@ -254,6 +300,25 @@ def check(case):
     body, _, after = out.rpartition('|after:')
     p = case['opts'].get('prefix')
     exp_after = '∅∅OUTERX' + ('∅' if p else '')
+    if ra is not None:
+        exp_after += '∅'
+        body, _, inlet = body.rpartition('|in-let:')
+        if inlet != '∅OUTERX':
+            return ('binding-visible-after-end-tag',
+                    '%r on %r: after the loop (inside the let) got %r, '
+                    'expected %r' % (src, items, inlet, '∅OUTERX'))
+        if ra < len(rows or ()):
+            if body != 'CAUGHT':
+                return ('failing-body-not-propagated', '%r on %r (body '
+                        'fails on displayed element %d): rendered %r' % (
+                            src, items, ra, body[:200]))
+            if after != exp_after:
+                return ('binding-visible-after-end-tag',
+                        '%r on %r: body failed on displayed element %d and '
+                        'the error was caught outside the loop; afterwards '
+                        'got %r expected %r' % (src, items, ra, after,
+                                                exp_after))
+            return None
     if after != exp_after:
         return ('binding-visible-after-end-tag',
                 '%r: after the end tag got %r expected %r' % (src, after,
@@ -307,6 +372,7 @@ def strategy():
                                 'str', 'int', 'mixed', 'mixed']),
         xs=st.lists(st.integers(0, 2), min_size=0, max_size=12),
         ks=st.permutations(list(range(12))),
+        raise_at=st.one_of(st.none(), st.none(), st.integers(0, 5)),
         opts=opts)).map(fix)
 
 
